@@ -28,6 +28,37 @@ def parseMToks : List String → Option (List Cppcheck.Match.Tok)
     | _, _, _, _ => none
   | _ => none
 
+def parseElem (f : String) : Option Elem :=
+  let k := f.take 1
+  let arg := (f.drop 1).toString
+  if f == "n" then some .nl
+  else match fromHex (if arg == "" then "-" else arg) with
+    | none => none
+    | some s =>
+      if k == "w" then (match s with | [c] => some (.ws c) | _ => none)
+      else if k == "l" then some (.lcom s)
+      else if k == "b" then some (.bcom s)
+      else if k == "d" then some (.word s)
+      else if k == "o" then (match s with | [c] => some (.op c) | _ => none)
+      else if k == "q" then (match s with | q :: i => some (.lit q i) | [] => none)
+      else none
+
+def parseElems : List String → Option (List Elem)
+  | [] => some []
+  | f :: r =>
+    match parseElem f, parseElems r with
+    | some e, some es => some (e :: es)
+    | _, _ => none
+
+def splitBar : List String → List String × List String
+  | [] => ([], [])
+  | f :: r => if f == "|" then ([], r) else let p := splitBar r; (f :: p.1, p.2)
+
+def optToks (o : Option (List RTok)) : String :=
+  match o with
+  | none => "U"
+  | some ts => toksStr ts
+
 def step (line : String) : String :=
   match fields line with
   | ["lex", src] =>
@@ -48,6 +79,18 @@ def step (line : String) : String :=
     match parsePairs pairs with
     | some ps => boolStr ((Cppcheck.MatchEquiv.Renaming.mk ps).avoids Cppcheck.Gen.Reserved.reserved)
     | none => "bad-op"
+  | "layout" :: fs =>
+    let p := splitBar fs
+    match parseElems p.1, parseElems p.2 with
+    | some es, some es' =>
+      let ts := placeE 1 1 es
+      let ts' := placeE 1 1 es'
+      let φ := tableMap ((ts.map RTok.pos).zip (ts'.map RTok.pos))
+      let rel := decide (ts' = ts.map (reloc φ))
+      let pres := presB φ (ts.map RTok.pos) (opPositions ts)
+      let dots := dotsOKB ts
+      s!"ok={boolStr (elemsOK es)} ok2={boolStr (elemsOK es')} rel={boolStr rel} pres={boolStr pres} dots={boolStr dots} src={toHex (renderE es)} src2={toHex (renderE es')} | {toksStr ts} | {toksStr ts'} | {optToks (tokens (renderE es))} | {optToks (tokens (renderE es'))}"
+    | _, _ => "bad-op"
   | ["reserved"] =>
     " ".intercalate (Cppcheck.Gen.Reserved.reserved.map toHex)
   | ["patlits", p] =>
